@@ -145,8 +145,17 @@ int cp_ecdsa_ver(const bn_t r, const bn_t s, const uint8_t *msg, size_t len,
 		ec_curve_get_ord(n);
 
 		if (bn_sign(r) == RLC_POS && bn_sign(s) == RLC_POS &&
-				!bn_is_zero(r) && !bn_is_zero(s) && ec_on_curve(q)) {
-			if (bn_cmp(r, n) == RLC_LT && bn_cmp(s, n) == RLC_LT) {
+				!bn_is_zero(r) && !bn_is_zero(s) && !ec_is_infty(q) &&
+				ec_on_curve(q)) {
+			/* Full public key validation: [n]Q = O when there is a cofactor. */
+			int valid = 1;
+			ec_curve_get_cof(k);
+			if (bn_cmp_dig(k, 1) != RLC_EQ) {
+				/* Plain binary method: ec_mul() reduces the scalar modulo n. */
+				RLC_CAT(RLC_EC_LOWER, mul_basic)(p, q, n);
+				valid = ec_is_infty(p);
+			}
+			if (valid && bn_cmp(r, n) == RLC_LT && bn_cmp(s, n) == RLC_LT) {
 				bn_mod_inv(k, s, n);
 
 				if (!hash) {
